@@ -29,6 +29,9 @@ import mpi_algebra_common as A
 from mpi_algebra_common import U, PN
 
 LEVEL = "model_checking"
+META = {"text": "TLC evaluates the Cartesian topology functions of MPI-3.1 7.5 (spec/mpi/MpiCart.tla: row-major rank<->coords bijection, periodic wrap-around in Cart_rank, Cart_shift with MPI_PROC_NULL off a non-periodic edge, Cart_sub, post-condition of Dims_create) on every grid of the stated scope (quick: <= 3 dims / <= 12 nodes x every periodicity pattern and remain vector; thorough: <= 4 dims / <= 24 nodes likewise and <= 64 nodes with 3 periodicity patterns) plus a seeded sample up to 4 dims / 64 nodes, for all ranks, directions and displacements in [-2*dim, 2*dim]; the grid laws (bijection, shift inverses, sub-grids partition the grid) are invariants on the small grids; every rank of an smpirun performs the same calls and is compared with TLC's values; Dims_create results are fed back to TLC, which evaluates the post-condition (MpiCartVal).",
+        "note": "Trusted: TLC, MpiCart.tla, the driver's guard that turns a SIGFPE inside one topology call into a recorded result. Conformance holds for the grids replayed. The rank order inside a Cart_sub communicator is taken as the row-major order of the kept coordinates. Known findings: Cart_sub builds the sub-topology from the old communicator (wrong coordinates, zero dims, SIGFPE), Cart_sub with no kept dimension returns MPI_COMM_NULL on ranks other than 0, Dims_create accepts given entries whose product does not divide nnodes.",
+        "technique": "TLC exhaustive small scope + -simulate over MpiCart (case and oracle generation, laws as invariants) + TLC validation of Dims_create results, replay into SMPI on every rank (harness/mpi_algebra.cpp), comparison in Python"}
 DRIVERS = A.DRIVERS
 
 
